@@ -520,8 +520,12 @@ func inlineBlockBoxLayout(context *layoutContext, box_ Box, positionX pr.Float, 
 
 	box.PositionX = positionX
 	box.PositionY = 0
+	// the box stands in a line box and is not fragmented: the forced breaks inside it do not apply
+	// (the continuation would be laid out on no page)
+	context.inAtomicInline++
 	box_, _, _ = blockContainerLayout(context, box_, -pr.Inf, skipStack,
 		true, absoluteBoxes, fixedBoxes, new([]pr.Float), false, -1)
+	context.inAtomicInline--
 	box_.Box().Baseline = inlineBlockBaseline(box_)
 	return box_
 }
@@ -665,7 +669,9 @@ func splitInlineLevel(context *layoutContext, box_ Box, positionX, maxX, bottomS
 		box.PositionY = 0
 		resolveMarginAuto(box)
 		var v blockLayout
+		context.inAtomicInline++
 		newBox, v = flexLayout(context, box_, -pr.Inf, skipStack, containingBlock.Box(), false, absoluteBoxes, fixedBoxes)
+		context.inAtomicInline--
 		resumeAt = v.resumeAt
 		preservedLineBreak = false
 		firstLetter = '\u2e80'
@@ -675,7 +681,9 @@ func splitInlineLevel(context *layoutContext, box_ Box, positionX, maxX, bottomS
 		box.PositionY = 0
 		resolveMarginAuto(box)
 		var v blockLayout
+		context.inAtomicInline++
 		newBox, v = gridLayout(context, box_, -pr.Inf, skipStack, containingBlock.Box(), false, absoluteBoxes, fixedBoxes)
+		context.inAtomicInline--
 		resumeAt = v.resumeAt
 		preservedLineBreak = false
 		firstLetter = '\u2e80'
